@@ -93,3 +93,38 @@ func VerifPartialStore(l *NDNLPLinkService) (messages int, slots int) {
 	}
 	return
 }
+
+// VerifFrameSink is a link service that only records the frames its transport hands up
+// (the boundary "transport -> link layer").
+type VerifFrameSink struct {
+	linkServiceBase
+	mu     sync.Mutex
+	frames [][]byte
+}
+
+// NewVerifFrameSink attaches a recording link service to a real transport.
+func NewVerifFrameSink(tr transport) *VerifFrameSink {
+	l := &VerifFrameSink{}
+	l.makeLinkServiceBase()
+	l.transport = tr
+	tr.setLinkService(l)
+	return l
+}
+
+func (l *VerifFrameSink) String() string     { return "VerifFrameSink" }
+func (l *VerifFrameSink) Run(initial []byte) {}
+func (l *VerifFrameSink) handleIncomingFrame(frame []byte) {
+	l.mu.Lock()
+	l.frames = append(l.frames, append([]byte{}, frame...))
+	l.mu.Unlock()
+}
+
+// Frames returns copies of the frames recorded so far.
+func (l *VerifFrameSink) Frames() [][]byte {
+	l.mu.Lock()
+	defer l.mu.Unlock()
+	return append([][]byte{}, l.frames...)
+}
+
+// VerifRunReceive runs a transport's own receive loop until it returns.
+func VerifRunReceive(tr transport) { tr.runReceive() }
